@@ -15,7 +15,7 @@ sub_names = {1: "the ordered history of one run with init_tracing()"}
 rule = ("cases = 1-5 scenarios (1-3 steps each, @retry(N) with failing first attempts or none) whose step bodies emit 0-3 tracing "
         "events before and 0-2 after an await point that yields 0-3 times (30% of the cases have one chatty step with a burst of 26-89 "
         "messages; 25% of the steps emit inside a user span nested in the step's span; 20% of the steps emit messages whose text contains double underscores; 40% of the runs are polled inside an "
-        "application-level span), concurrency 1..8 or unlimited; ONE run per process "
+        "application-level span; in 25% the cucumber layer sits behind LevelFilter::WARN and the messages are warnings; in 25% a which_scenario classifier is installed after init_tracing()), concurrency 1..8 or unlimited; ONE run per process "
         "(the subscriber is global) through the REAL Cucumber::init_tracing() with a recording writer in front of which there is no "
         "Normalize. The trace points of the hook (forwarder calls, span closes, subscriptions), the harness's own records (step "
         "entry with its span, every emitted message) and the events form one totally ordered history; the Coq protocol model must "
@@ -44,7 +44,14 @@ def gen_one(rng):
     if rng.random() < 0.3:          # a chatty step: a burst of messages between two await points
         st = rng.choice(rng.choice(scs)["steps"])
         st[rng.choice(["pre", "post"])] = rng.randrange(26, 90)
-    return dict(concurrency=rng.choice([None, 1, 2, 4, 8]), outer=rng.random() < 0.4, scenarios=scs)
+    case = dict(concurrency=rng.choice([None, 1, 2, 4, 8]), outer=rng.random() < 0.4, scenarios=scs)
+    # 25%: the cucumber layer sits behind LevelFilter::WARN (messages are emitted as warnings, with an INFO line next to
+    # each that must never show up); 25%: a `which_scenario` classifier is installed AFTER init_tracing()
+    if rng.random() < 0.25:
+        case["filter"] = "warn"
+    if rng.random() < 0.25:
+        case["which_after"] = True
+    return case
 
 
 def gen(rng, tier):
@@ -94,4 +101,5 @@ def describe(case, res):
             "retry=%s" % any(sc["retry"] for sc in case["scenarios"]), "outer_span=%s" % bool(case.get("outer")),
             "inner_span=%s" % any(st.get("inner") for sc in case["scenarios"] for st in sc["steps"]),
             "dunder=%s" % any(st.get("under") for sc in case["scenarios"] for st in sc["steps"]),
+            "filter=%s" % case.get("filter", "info"), "which_after=%s" % bool(case.get("which_after")),
             "burst=%s" % any(st["pre"] > 8 or st["post"] > 8 for sc in case["scenarios"] for st in sc["steps"])]
